@@ -9,7 +9,7 @@ def drivers : List (String × Proto.Driver) := [
   ("c19once", C19.Once.driver),
   ("c19ets", C19.Ets.driver),
   ("c19life", C19.Life.driverWith (C19.Life.Cfg.ofCodes Generated.C19.lifeClearKey Generated.C19.lifeClearNo Generated.C19.lifeCtorKey
-      Generated.C19.lifeCtorNo Generated.C19.lifeDtorKey Generated.C19.lifeDtorNo Generated.C19.lifeTlsLookup))
+      Generated.C19.lifeCtorNo Generated.C19.lifeDtorKey Generated.C19.lifeDtorNo Generated.C19.lifeTlsLookup Generated.C19.lifeSwapKey))
 ]
 
 def main (args : List String) : IO UInt32 := Proto.mainOf drivers args
